@@ -34,67 +34,115 @@ def _faces_ok(cell, c4):
     return all(c4 * int(np.dot(f, f)) <= vol * vol for f in (np.cross(a, b), np.cross(b, c), np.cross(c, a)))
 
 
+CAND = 12
+
+
+def _one(rs, md, base_id, ci):
+    """one random configuration run through the real searches -> its two trace records (or None)"""
+    out = []
+    periodic = rs.rand() < 0.85
+    cell = CELLS[rs.randint(len(CELLS))]
+    ks = [k for k in (1, 3, 5, 7) if _faces_ok(cell, k * k)] if periodic else [1, 3, 5, 9]
+    k = ks[rs.randint(len(ks))]
+    n = int(rs.randint(2, 15))
+    mode = rs.randint(6) if periodic else rs.randint(4)
+    cm = np.array(cell)
+    if mode >= 4:
+        # a larger cell (integer multiple: many voxels per axis for the small cutoffs) with the atoms in a thin slab on both sides of
+        # one cell face, spread over the whole face: most close pairs are neighbours only through the periodic image across that face
+        cm = cm * int(rs.randint(2, 4)); cell = cm.tolist()
+        ks = [kk for kk in (3, 5, 7, 9) if _faces_ok(cell, kk * kk)] or [1]
+        k = ks[rs.randint(len(ks))]
+        n = int(rs.randint(8, 15))
+    if mode == 0:      # inside the primary cell
+        frac = rs.rand(n, 3)
+        pos = np.floor(frac @ cm).astype(int)
+    elif mode == 1:    # spread over several cells
+        pos = np.floor(rs.rand(n, 3) @ cm).astype(int) + rs.randint(-3, 4, size=(n, 3)) @ cm
+    elif mode == 2:    # clustered (many pairs near the cutoff), cluster centre anywhere
+        ctr = rs.randint(-2, 3, size=3) @ cm + np.floor(rs.rand(3) @ cm).astype(int)
+        pos = ctr + rs.randint(-(k // 2 + 2), k // 2 + 3, size=(n, 3))
+    elif mode >= 4:
+        ax = 2 if mode == 4 else int(rs.randint(3))
+        pos = []
+        for _p in range(n // 2):
+            fr = 0.15 + 0.7 * rs.rand(3); fr[ax] = 0.0
+            A = np.floor(fr @ cm).astype(int)                        # a spot on the face, away from the other faces ...
+            A[ax] += 1                                               # ... the first atom just inside
+            e = int(rs.choice([x for x in range(3) if x != ax]))     # the pair is separated by almost the cutoff along e,
+            d = rs.randint(-1, 2, size=3)
+            d[e] = int(rs.choice([-1, 1])) * (k // 2)
+            d[ax] = -int(rs.randint(2, 4))                           # and the partner sits just outside: neighbours across the face only
+            while 4 * int(d @ d) >= k * k and (abs(d[ax]) > 2 or any(d[x] for x in range(3) if x not in (ax, e))):
+                if abs(d[ax]) > 2:
+                    d[ax] += 1
+                else:
+                    d[[x for x in range(3) if x not in (ax, e)][0]] = 0
+            pos += [A, A + d]
+        pos = np.array(pos)
+    else:              # on cell faces / voxel boundaries
+        pos = np.floor(rs.rand(n, 3) @ cm).astype(int)
+        pos[:, rs.randint(3)] = 0
+        pos = pos + (rs.randint(-1, 2, size=(n, 3)) @ cm if rs.rand() < 0.5 else 0)
+    # no coincident atoms (the lattice distance 0 is fine for the definition, but keep configurations physical)
+    _, idx = np.unique(pos, axis=0, return_index=True)
+    pos = pos[np.sort(idx)]
+    n = len(pos)
+    if n < 2:
+        return None
+    top = md.Topology(); ch = top.add_chain()
+    for i in range(n):
+        top.add_atom("C", md.element.carbon, top.add_residue("X", ch))
+    t = md.Trajectory((pos * G).astype(np.float32)[None], top)
+    if periodic:
+        t.unitcell_vectors = (cm * G).astype(np.float32)[None]
+    cutoff = k / 2.0 * G
+    allidx = list(range(n))
+    q = sorted(rs.choice(n, size=rs.randint(1, n + 1), replace=False).tolist())
+    h = allidx if rs.rand() < 0.5 else sorted(rs.choice(n, size=rs.randint(1, n + 1), replace=False).tolist())
+    common = dict(cell=cell, pos=pos.tolist(), c4=k * k, periodic=bool(periodic))
+    try:
+        got = md.compute_neighbors(t, cutoff, np.array(q), haystack_indices=np.array(h), periodic=periodic)[0]
+        out.append(dict(common, id=base_id + 2 * ci, kind="neighbors", query=[i + 1 for i in q], haystack=[i + 1 for i in h],
+                         obs=[int(i) + 1 for i in got], mode=int(mode)))
+    except Exception as e:  # noqa
+        out.append(dict(common, id=base_id + 2 * ci, kind="neighbors", query=[i + 1 for i in q], haystack=[i + 1 for i in h], obs=[-1], mode=int(mode),
+                         exc="%s: %s" % (type(e).__name__, e)))
+    try:
+        nl = md.compute_neighborlist(t, cutoff, frame=0, periodic=periodic)
+        out.append(dict(common, id=base_id + 2 * ci + 1, kind="neighborlist", query=[], haystack=[], obs=[[int(j) + 1 for j in row] for row in nl], mode=int(mode)))
+    except Exception as e:  # noqa
+        out.append(dict(common, id=base_id + 2 * ci + 1, kind="neighborlist", query=[], haystack=[], obs=[[-1]] * n, mode=int(mode), exc="%s: %s" % (type(e).__name__, e)))
+    # independent second assertion: the same relation from compute_distances (inside the comparable range)
+    pairs = np.array([(i, j) for i in range(n) for j in range(i + 1, n)])
+    d = md.compute_distances(t, pairs, periodic=periodic)[0]
+    rel = set((int(i) + 1, int(j) + 1) for (i, j), dd in zip(pairs, d) if dd < cutoff)
+    nlrel = set((i + 1, int(j) + 1) for i, row in enumerate(nl) for j in row if i < j) if "exc" not in out[-1] else None
+    out[-1]["agrees_with_distances"] = (nlrel == rel) if nlrel is not None else False
+    if periodic:
+        fr = np.linalg.solve(cm.T.astype(float), pos.T.astype(float)).T
+        out[-1]["pre_onface"] = bool((np.abs(fr - np.round(fr)) < 1e-9).any())
+    return out
+
+
 def _gen(task):
-    """generate configurations, run the real searches, return trace records"""
+    """generate configurations, run the real searches, return trace records.  Guided sampling: for every record slot up to CAND
+    candidate configurations are drawn and the first one on which the neighbour list disagrees with compute_distances in float is
+    kept (else the last): the pre-screen only decides WHICH configurations are submitted, the verdict is NeighborsTrace.tla's"""
     import mdtraj as md
     seed, n_conf, base_id = task
     rs = np.random.RandomState(seed)
     recs = []
     for ci in range(n_conf):
-        periodic = rs.rand() < 0.85
-        cell = CELLS[rs.randint(len(CELLS))]
-        ks = [k for k in (1, 3, 5, 7) if _faces_ok(cell, k * k)] if periodic else [1, 3, 5, 9]
-        k = ks[rs.randint(len(ks))]
-        n = int(rs.randint(2, 15))
-        mode = rs.randint(4)
-        cm = np.array(cell)
-        if mode == 0:      # inside the primary cell
-            frac = rs.rand(n, 3)
-            pos = np.floor(frac @ cm).astype(int)
-        elif mode == 1:    # spread over several cells
-            pos = np.floor(rs.rand(n, 3) @ cm).astype(int) + rs.randint(-3, 4, size=(n, 3)) @ cm
-        elif mode == 2:    # clustered (many pairs near the cutoff), cluster centre anywhere
-            ctr = rs.randint(-2, 3, size=3) @ cm + np.floor(rs.rand(3) @ cm).astype(int)
-            pos = ctr + rs.randint(-(k // 2 + 2), k // 2 + 3, size=(n, 3))
-        else:              # on cell faces / voxel boundaries
-            pos = np.floor(rs.rand(n, 3) @ cm).astype(int)
-            pos[:, rs.randint(3)] = 0
-            pos = pos + (rs.randint(-1, 2, size=(n, 3)) @ cm if rs.rand() < 0.5 else 0)
-        # no coincident atoms (the lattice distance 0 is fine for the definition, but keep configurations physical)
-        _, idx = np.unique(pos, axis=0, return_index=True)
-        pos = pos[np.sort(idx)]
-        n = len(pos)
-        if n < 2:
-            continue
-        top = md.Topology(); ch = top.add_chain()
-        for i in range(n):
-            top.add_atom("C", md.element.carbon, top.add_residue("X", ch))
-        t = md.Trajectory((pos * G).astype(np.float32)[None], top)
-        if periodic:
-            t.unitcell_vectors = (cm * G).astype(np.float32)[None]
-        cutoff = k / 2.0 * G
-        allidx = list(range(n))
-        q = sorted(rs.choice(n, size=rs.randint(1, n + 1), replace=False).tolist())
-        h = allidx if rs.rand() < 0.5 else sorted(rs.choice(n, size=rs.randint(1, n + 1), replace=False).tolist())
-        common = dict(cell=cell, pos=pos.tolist(), c4=k * k, periodic=bool(periodic))
-        try:
-            got = md.compute_neighbors(t, cutoff, np.array(q), haystack_indices=np.array(h), periodic=periodic)[0]
-            recs.append(dict(common, id=base_id + 2 * ci, kind="neighbors", query=[i + 1 for i in q], haystack=[i + 1 for i in h],
-                             obs=[int(i) + 1 for i in got], mode=int(mode)))
-        except Exception as e:  # noqa
-            recs.append(dict(common, id=base_id + 2 * ci, kind="neighbors", query=[i + 1 for i in q], haystack=[i + 1 for i in h], obs=[-1], mode=int(mode),
-                             exc="%s: %s" % (type(e).__name__, e)))
-        try:
-            nl = md.compute_neighborlist(t, cutoff, frame=0, periodic=periodic)
-            recs.append(dict(common, id=base_id + 2 * ci + 1, kind="neighborlist", query=[], haystack=[], obs=[[int(j) + 1 for j in row] for row in nl], mode=int(mode)))
-        except Exception as e:  # noqa
-            recs.append(dict(common, id=base_id + 2 * ci + 1, kind="neighborlist", query=[], haystack=[], obs=[[-1]] * n, mode=int(mode), exc="%s: %s" % (type(e).__name__, e)))
-        # independent second assertion: the same relation from compute_distances (inside the comparable range)
-        pairs = np.array([(i, j) for i in range(n) for j in range(i + 1, n)])
-        d = md.compute_distances(t, pairs, periodic=periodic)[0]
-        rel = set((int(i) + 1, int(j) + 1) for (i, j), dd in zip(pairs, d) if dd < cutoff)
-        nlrel = set((i + 1, int(j) + 1) for i, row in enumerate(nl) for j in row if i < j) if "exc" not in recs[-1] else None
-        recs[-1]["agrees_with_distances"] = (nlrel == rel) if nlrel is not None else False
+        best = None
+        for _attempt in range(CAND):
+            r = _one(rs, md, base_id, ci)
+            if r is None:
+                continue
+            best = r
+            if not r[-1].get("agrees_with_distances", True) and not r[-1].get("pre_onface", False):
+                break           # (disagreements with an atom exactly on a cell face are the open finding: keep looking for others)
+        recs += best or []
     return recs
 
 
